@@ -583,10 +583,11 @@ def j_c14_bar(inp):
 # ---- C05
 @judge_for("C05", "quantise")
 def j_c05(inp):
-    ms, steps = inp
+    ms, steps = inp[0], inp[1]
     if not wellformed(ms) or not steps:
         return None
-    s = mk_abs(ms)
+    s = ops.quant_seq(inp)
+    ms = abs_of(s)               # what quantise sees (with the INTERNAL end marker if the input ends with a rest)
     s.quantise(list(steps))
     out = abs_of(s)
     v = []
@@ -624,12 +625,17 @@ def j_c05(inp):
 # ---- C06
 @judge_for("C06", "qnl")
 def j_c06(inp):
-    ms, vals, std, dne = inp
+    ms, vals, std, dne = inp[:4]
     if not wellformed(ms) or any(x <= 0 for x in vals):
         return None
-    s = mk_abs(ms)
-    s.quantise_note_lengths(list(vals), standard_length=std, do_not_extend=dne)
-    out = abs_of(s)
+    if len(inp) > 4 and inp[4]:
+        if not vals:
+            return None      # an empty value list means "defaults" to quantise_and_normalise
+        s0 = mk_abs(ms)
+        s0.quantise([1])     # the compound call quantises first: judged only where that step keeps every note (C05 judges it)
+        if roll(abs_of(s0)) != roll(ms):
+            return None
+    out = abs_of(ops.qnl_apply(inp))
     v = []
     r_in, r_out = roll(ms), roll(out)
     if r_out is None:
@@ -637,7 +643,7 @@ def j_c06(inp):
     if any(n[3] not in vals for n in r_out):
         v.append("a note has a duration outside the allowed values")
     non = lambda l: events([m for m in l if m[0] not in ("NOTE_ON", "NOTE_OFF")])
-    if non(ms) != non(out):
+    if non(ms) != non(out) and not (len(inp) > 4 and inp[4]):     # the compound call also normalises (drops repeated signatures)
         v.append("a non-note event changed")
     key = lambda n: (n[0], n[1], n[2], n[4])
     din = {key(n): n for n in r_in}
